@@ -40,7 +40,9 @@ class SubInvalidCreds(InvalidCredentialsError):
 _MSGS = [u'plain message', u'h\xe9llo w\xf6rld', u'中文 <&> "q"',
          u'semi;colon: and/slash', u'x', u'non-BMP \U0001F600 \U00010348 end',
          u'tab\tand newline\nkept', u']]> not cdata', u'a' * 300,
-         u'ctl \x01 and \x0b chars']
+         u'ctl \x01 and \x0b chars',
+         # blanks at either end are part of the message
+         u'  leading blanks', u'trailing blank and newline \n', u'   ']
 _DETAILS = [None, {'k': 'v'}, {'outer': {'inner': 'deep'}},
             {'a': '1', 'b': '2'}, {'n': {'m': {'o': 'p'}}},
             # falsy leaves are data too
